@@ -184,3 +184,32 @@ func vFilter(ids []uint32, foreign uint32) []uint32 {
 	}
 	return filt
 }
+
+// vSameResults: two result lists are the same answer up to tie-breaking:
+// equal length, the same score at every rank, and every id of one list is in
+// the other with the same score or sits in a tie with the other's last score.
+func vSameResults(a, b []VectorResult, label string) {
+	vAssert(len(a) == len(b), label+"-len")
+	if len(a) != len(b) {
+		return
+	}
+	for i := range a {
+		vAssert(vSameF32(a[i].Score, b[i].Score), label+"-score-at-rank")
+	}
+	chk := func(x, y []VectorResult) {
+		for _, r := range x {
+			ok := false
+			for _, s := range y {
+				if s.GetId() == r.GetId() {
+					ok = vOr(ok, vSameF32(r.Score, s.Score))
+				}
+			}
+			if len(y) > 0 {
+				ok = vOr(ok, vSameF32(r.Score, y[len(y)-1].Score))
+			}
+			vAssert(ok, label+"-id")
+		}
+	}
+	chk(a, b)
+	chk(b, a)
+}
